@@ -119,6 +119,23 @@ def r1(ctx, R):
     gm = ctx.func("SpaceGraph.get_mro")
     if not q.raises(gm, "TypeError"):
         R.bad(gm, gm.node, "inconsistent hierarchies are not refused", stmt="raise TypeError")
+    R.inst("get_mro merges the linearisations of the direct bases AND the list of direct bases itself (local precedence)")
+    sv = assigned_value(gm, "seqs")
+    txt = norm(sv[0]) if sv else ""
+    if not (len(sv) == 1 and "self.get_mro(base) for base in self.ordered_preds(node)" in txt
+            and txt.rstrip().endswith("+ [self.ordered_preds(node)]")):
+        R.bad(gm, gm.node, "the order of a space's own direct bases is not one of the merged sequences: with three or more "
+                           "bases the linearisation (and `bases`) can put a later base before an earlier one",
+              stmt="seqs = [mro(b) for b in bases] + [bases]")
+    R.inst("get_mro: a candidate is rejected when it occurs in the tail of any sequence; the node comes first")
+    nh = assigned_value(gm, "not_head")
+    if not nh or norm(nh[0]) != "[s for s in non_empty if candidate in s[1:]]":
+        R.bad(gm, gm.node, "merge candidate test changed", stmt="not_head")
+    if not q.calls(gm, name="insert", recv="res") or [norm(a) for a in q.calls(gm, name="insert", recv="res")[0].args] != ["0", "node"]:
+        R.bad(gm, gm.node, "the space itself does not head its linearisation", stmt="res.insert(0, node)")
+    cv = assigned_value(gm, "candidate")
+    if "seq[0]" not in [norm(v) for v in cv]:
+        R.bad(gm, gm.node, "merge candidates are not the heads of the sequences", stmt="candidate = seq[0]")
 
 
 @rule("C03.R2", "C03", "STRUCT", "loops over sub spaces never break", min_instances=7)
@@ -155,6 +172,14 @@ def _known(fi, loop, vocab, R):
     """Every test operand inside the loop must be in the rule's vocabulary."""
     for n in fi.cfg.nodes:
         if n.kind == "test" and n.ast is not None and any(a is loop for a in ancestors(fi.pm, n.ast)):
+            t = norm(n.ast)
+            if t not in vocab and (".bases[0] is" in t or ".direct_bases[0] is" in t or
+                                   ("get_deriv_bases(" in t and "defined_only=True" not in t and "[0] is" in t)):
+                # recognised, and wrong: the first base may be a *derived* copy in an intermediate space
+                R.bad(fi, n.ast, "first definer is looked up among all bases, not among the *defined* ones: a derived copy "
+                                 "in an intermediate space hides the defining base")
+                vocab = set(vocab) | {t}
+                continue
             if norm(n.ast) not in vocab:
                 raise AnalysisError("C03.R3: unrecognised predicate `%s` in %s" % (norm(n.ast), fi.short))
 
